@@ -356,7 +356,7 @@ def run(chk):
     ok = tv is not None and all(gr.exit.id not in gr.reachable(gr.by_ast.get(id(h), [])) and any(isinstance(x, ast.Raise) and "TrackSyntaxError" in u(x.exc) for x in ast.walk(h)) for h in tv.handlers)
     chk.ob("O10.4", "validation errors re-raised as track syntax errors", ok, tv if tv is not None else rd, "")
     # the window is evaluated, not read off the comparison text: with representative bounds 2..4 the rejecting conditions of the dominating checks must reject exactly 1 and 5
-    vt = [n for n in rd.body if isinstance(n, ast.If) and "SUPPORTED_TRACK_VERSION" in u(n.test)]
+    vt = [n for n in source.flat(rd.body) if isinstance(n, ast.If) and "SUPPORTED_TRACK_VERSION" in u(n.test)]
     rej = [rejecting_condition(gr, n) for n in vt]
     tests = sorted(u(n.test) for n in vt)
     ok = bool(vt) and all(gr.dominated_by_nodes(bn, [gr.node_of(n)]) for n in vt) and all(r is not None for r in rej)
@@ -478,14 +478,18 @@ def run(chk):
     chk.ob("O10.5", "no default challenge rejected (after all challenges were read)", ok, none[0] if none else cc, "")
     # mixing rules: decision table over abstract tasks
     tstmt = source.enclosing_stmt(tctor[0])
-    idx = pt.body.index(tstmt) if tstmt in pt.body else None
+    ptb = source.flat(pt.body)  # the statements of parse_task as written (guard clauses do not nest the rest)
+    idx = ptb.index(tstmt) if tstmt in ptb else None
     if idx is None:
         raise AnchorMissing("task construction statement at top level of parse_task")
     # role: the task under validation is the local assigned from track.Task(...)
     task_local = name_of(tstmt.targets[0]) if isinstance(tstmt, ast.Assign) and len(tstmt.targets) == 1 else None
     if task_local is None:
         raise AnchorMissing("`<local> = track.Task(...)` in parse_task")
-    block = [s for s in stmts_of(pt.body[idx + 1:]) if not isinstance(s, ast.Return)]
+    # the statements that follow the construction IN ITS OWN BLOCK (guard clauses carry the rest of the block in their synthetic arm, so nothing is listed twice)
+    own = next((getattr(source.parent(tstmt), f_) for f_ in ("body", "orelse", "finalbody") if isinstance(getattr(source.parent(tstmt), f_, None), list)
+                and any(x is tstmt for x in getattr(source.parent(tstmt), f_))), pt.body)
+    block = [s for s in stmts_of(own[[i for i, x in enumerate(own) if x is tstmt][0] + 1:]) if not isinstance(s, ast.Return)]
     n_rows = 0
     for wi, it, wt, tp, ru in itertools.product([False, True], [False, True], [False, True], [False, True], ["none", "le", "gt"]):
         if ru != "none" and not wt and ru == "le":
@@ -572,20 +576,20 @@ def run(chk):
     ok = bool(tctor) and any(i is not None and gcall.dominated_by_nodes(gcall.node_of(tctor[0]), [gcall.node_of(i)]) for i in own_ifs)
     if not ok and tctor:
         # alternatively the helper's check is its first statement and the helper is called unconditionally before the construction
-        first = [s_ for s_ in cr.body if not (isinstance(s_, ast.Expr) and isinstance(s_.value, ast.Constant))]
+        first = [s_ for s_ in source.flat(cr.body) if not (isinstance(s_, ast.Expr) and isinstance(s_.value, ast.Constant))]
         in_helper = [n for n in both if source.enclosing_func(n) is cr]
         ok = bool(first) and bool(in_helper) and source.enclosing(in_helper[0], ast.If) is first[0] and bool(ccall) and gcall.dominated_by_nodes(gcall.node_of(tctor[0]), [gcall.node_of(ccall[0])])
     chk.ob("O10.5", "the indices / data-streams exclusion is tested on every path to the Track construction", ok, own[0] if own else call,
            "" if ok else "the only remaining test sits in a helper behind an early return: a track with both lists and no corpora is loaded", key=f"{_L}:TrackSpecificationReader.__call__:both-rejected-on-every-path")
     # reserved / unused track params between building and returning
-    rets = [n for n in rd.body if isinstance(n, ast.Return)]
+    rets = [n for n in source.flat(rd.body) if isinstance(n, ast.Return)]
     for what, meth in (("reserved", "internal_user_defined_track_params"), ("unused", "unused_user_defined_track_params")):
         cs = [c for c in source.calls_in(rd) if last_attr(c.func) == meth]
         ok = False
         if cs and rets:
             v = source.enclosing_stmt(cs[0]).targets[0].id if isinstance(source.enclosing_stmt(cs[0]), ast.Assign) else None
             # the test that rejects when the list is non-empty, whichever arm holds the raise
-            tests = [n for n in rd.body if isinstance(n, ast.If) and v is not None and pat.is_(rejecting_condition(gr, n), "len(V_v) > 0", "len(V_v) != 0", "len(V_v) >= 1", "V_v", binds={"v": v})]
+            tests = [n for n in source.flat(rd.body) if isinstance(n, ast.If) and v is not None and pat.is_(rejecting_condition(gr, n), "len(V_v) > 0", "len(V_v) != 0", "len(V_v) >= 1", "V_v", binds={"v": v})]
             ok = bool(tests) and gr.dominated_by_nodes(gr.node_of(cs[0]), [bn]) and gr.dominated_by_nodes(gr.node_of(rets[-1]), [gr.node_of(tests[0])]) \
                 and any(isinstance(x, ast.Raise) and "TrackConfigError" in u(x.exc) for x in ast.walk(tests[0]))
         chk.ob("O10.5", f"{what} track parameters rejected between building and returning the track", ok, cs[0] if cs else rd, "")
